@@ -40,6 +40,9 @@ var rmCmd = &cobra.Command{
 	RunE: func(cmd *cobra.Command, args []string) error {
 		// args validation
 		for _, arg := range args {
+			if arg == "" {
+				return ErrInvalidArgs
+			}
 			// check if the arg is registered in the Index
 			cleanedArg := filepath.Clean(arg)
 			cleanedArg = strings.ReplaceAll(cleanedArg, `\`, "/")
